@@ -577,6 +577,40 @@ func c01(c *Ctx) {
 		}
 	})
 
+	c.Rule("C01.R10", "flushing reports, it does not consume: Flush writes only derived statistics into a series - the received data (a timer's values and sampled count, a counter's value, timestamps, tags, source) are left as they are until Reset (the only other writes are the zeros of an idle timer)", 2, func(r *Rule) {
+		fl := w.Func("pkg/statsd", "(*MetricAggregator).Flush")
+		if fl == nil {
+			r.Unresolved("(*MetricAggregator).Flush")
+			return
+		}
+		c.SawFunc(FuncName(fl))
+		inputs := map[string][]string{
+			"Timer":   {"Values", "SampledCount", "Timestamp", "Tags", "Source"},
+			"Counter": {"Value", "Timestamp", "Tags", "Source"},
+			"Gauge":   {"Value", "Timestamp", "Tags", "Source"},
+			"Set":     {"Values", "Timestamp", "Tags", "Source"},
+		}
+		n := 0
+		for _, g := range WithAnon(fl) {
+			for T, fs := range inputs {
+				for _, f := range fs {
+					for _, st := range fieldStores(g, T, f) {
+						n++
+						zero := false
+						if k, isC := st.Val.(*ssa.Const); isC && (k.Value == nil || k.Value.ExactString() == "0") {
+							zero = true
+						}
+						okIdle := zero && T == "Timer" && f == "SampledCount" && knownEmpty(factsAt(st.Block()), func(v ssa.Value) bool {
+							return strings.HasSuffix(pathOf(v), ".Values") || strings.HasSuffix(pathOf(ptrOrigin(v)), ".Values")
+						})
+						r.Check("Flush:leaves:"+T+"."+f, okIdle, st.Pos(), fmt.Sprintf("Flush assigns %s.%s (received data must reach Reset unchanged; only an idle timer's sampled count is zeroed)", T, f))
+					}
+				}
+			}
+		}
+		r.Check("Flush:input-writes-examined", n >= 1, fl.Pos(), fmt.Sprintf("%d stores into received-data fields in Flush", n))
+	})
+
 	c.Rule("C01.R3", "Reset carries identity (Timestamp, Source, Tags) and no data; gauges untouched", 20, func(r *Rule) {
 		resetRule(c, r)
 	})
